@@ -102,10 +102,51 @@ class Vocab:
             self.flaws.append(("placeholder-stray", lambda i: self.form(self.noext[i % len(self.noext)], i) + "/#",
                                "PLACEHOLDER_INVALID", False))
         self.flaws.append(("bad-char", lambda i: self.form(self.plain[i % len(self.plain)], i) + "[", "CHARACTER_INVALID", False))
+        # a definition whose placeholder takes a unit: the same definition used with a good and a wrongly valued Def
+        self.defs = DEFS
+        self.def_unit = None
+        for t in self.unit_tags:
+            du = self._unit_case_pair(t)
+            if du and self.has["Def"]:
+                self.def_unit = du
+                self.defs = DEFS + ", (Definition/Ccc/#, (%s/#, Green))" % t["name"]
+                good, bad = du
+                self.flaws.append(("def-unit-case", lambda i, bad=bad: "Def/%s/%s" % (["Ccc", "ccc"][i % 2], bad), "DEF_INVALID", False))
+                self.flaws.append(("def-bad-unit", lambda i: "Def/Ccc/3 qqzz", "DEF_INVALID", False))
+                break
         if self.has["Def"]:
             self.flaws.append(("undeclared-def", lambda i: "Def/Nopezz%d" % (i % 5), "DEF_INVALID", False))
             self.flaws.append(("def-extra-value", lambda i: "Def/Aaa/3", "DEF_INVALID", False))
             self.flaws.append(("def-missing-value", lambda i: "Def/Bbb", "DEF_INVALID", False))
+
+    def _unit_case_pair(self, t):
+        """(good value, bad value) for unit tag t where the two differ only in the letter case of a unit SYMBOL
+        (symbols and symbol prefixes are case-sensitive, unit names are not) and the second is no unit of t's classes."""
+        f = self.f
+        ph = [c for c in f.tags if c["placeholder"] and c["parent"] == t["long"]][0]
+        sym, names = set(), set()
+        msym = [m for m, md in f.modifiers.items() if "SIUnitSymbolModifier" in md["attrs"]]
+        mname = [m for m, md in f.modifiers.items() if "SIUnitModifier" in md["attrs"]]
+        cands = []
+        for uc in ph["attrs"].get("unitClass") or []:
+            for u, ud in (f.unit_classes.get(uc) or {"units": {}})["units"].items():
+                a = ud["attrs"]
+                if "unitSymbol" in a:
+                    sym.add(u)
+                    if "SIUnit" in a:
+                        sym.update(m + u for m in msym)
+                    if "unitPrefix" not in a and "deprecatedFrom" not in a and " " not in u:
+                        cands.append(u)
+                else:
+                    for n in (u.lower(), u.lower() + "s"):
+                        names.add(n)
+                        if "SIUnit" in a:
+                            names.update(m.lower() + n for m in mname)
+        for u in cands:
+            for w in (u.swapcase(), "m" + u.upper() if "m" + u in sym else None):
+                if w and w != u and w not in sym and w.lower() not in names:
+                    return "3 " + u, "3 " + w
+        return None
 
     def _foreign_term(self, t, i):
         """name of a schema term that is NOT a descendant of t (so that t/<term> is an extension, not a tag)"""
@@ -178,7 +219,12 @@ def render(case, vocab, rot, allow_ph=False, style=0, perm=None, ns="", forms=No
             txt = flaw[1](rot)
             return ns + txt if ns and not txt.startswith("Qq") else (ns + txt if ns else txt)
         if kd == "def":
-            return ns + cs(DEF_USES[rot % len(DEF_USES)])
+            if flaw[0] == "def-unit-case" and "bad" in kind:
+                # the same definition, correctly valued, next to the wrongly valued use (values differ in letter case only)
+                return ns + ["Def/Ccc/", "Def/ccc/", "DEF/CCC/"][(rot // 3) % 3] + vocab.def_unit[0]
+            if vocab.def_unit and rot % (len(DEF_USES) + 1) == len(DEF_USES):
+                return ns + cs("Def/Ccc/") + vocab.def_unit[0]          # unit symbols keep their case
+            return ns + cs(DEF_USES[rot % (len(DEF_USES) + 1) % len(DEF_USES)])
         if kd == "on":
             return ns + cs("Inset" if (vocab.inset_ok and rot % 3 == 1) else "Onset")
         if kd == "off":
